@@ -141,6 +141,16 @@ TypeTable == [
   UNITEXT |-> [size |-> -1, lb |-> 4, cl |-> "uni"] ]
 Types == DOMAIN TypeTable
 Nullable(t) == TypeTable[t].size = -1
+\* the nullable variant of a fixed-length type ("" : none), itself for a nullable type
+NullableOf(t) == IF Nullable(t) THEN t
+                 ELSE CASE t \in {"INT1", "INT2", "INT4", "INT8"} -> "INTN"
+                        [] t \in {"UINT2", "UINT4", "UINT8"} -> "UINTN"
+                        [] t \in {"FLT4", "FLT8"} -> "FLTN"
+                        [] t \in {"MONEY", "SHORTMONEY"} -> "MONEYN"
+                        [] t = "DATE" -> "DATEN"
+                        [] t = "TIME" -> "TIMEN"
+                        [] t \in {"DATETIME", "SHORTDATE"} -> "DATETIMEN"
+                        [] OTHER -> ""
 
 \* hex nibbles (most significant first) as little-endian bytes
 HexLE(nib) == LET n == Len(nib) \div 2 IN [i \in 1..n |-> nib[2 * (n - i) + 1] * 16 + nib[2 * (n - i) + 2]]
